@@ -67,6 +67,7 @@ package ignorefiles
 //@ func ParseIgnoreFileContent -> (rs, err)
 //@   sweep
 //@   ensures C19,C10.parse.result: err == nil ==> rs != nil
+//@   ensures C10,C03.parse.not-the-default: err == nil ==> rs != DefaultRuleset
 //@   pure
 //@   opt pure-label=C16.no-shared-state
 
@@ -76,6 +77,13 @@ package ignorefiles
 //@   opt pure-label=C16.no-shared-state
 //@   assume init.default: DefaultRuleset != nil
 //@   ensures C19,C10.load.result: err == nil ==> rs != nil
+// the built-in rules are the answer only when the package has no rule file; otherwise the rules come from parsing the
+// file that was opened at <packageDir>/.terraformignore (os.Open follows a link there, as the prepare walk allows)
+//@   ghost $openPath String = ""
+//@   ghost $openNotExist Bool = false
+//@   ghost $openOK Bool = false
+//@   ensures C10,C03.load.default-only-if-missing: err == nil && rs == DefaultRuleset ==> $openPath == Join(packageDir, ".terraformignore") && $openNotExist
+//@   ensures C10,C03.load.rules-from-the-file: err == nil && rs != DefaultRuleset ==> $openPath == Join(packageDir, ".terraformignore") && $openOK
 
 //@ func init#1
 //@   ensures C19,C10.init.default: DefaultRuleset != nil
